@@ -30,6 +30,11 @@ package sql
 //@   props C16 C08
 //@   requires ta.Name != nil
 //@   callarg fmt.Sprintf@1 1 gen.SQLTableName(ta.TableName())
+//@   -- composition order (res_F_k: result of the k-th call of F): table names are rewritten in the text that comes out of
+//@   -- the REFERENCES rewriting, and the enum placeholders are expanded LAST, on exactly that text — the SQL literals they
+//@   -- produce are never seen by the whole-word table-name replacer ("no other word is altered")
+//@   callarg (github.com/benoitkugler/gomacro/generator.TableNameReplacer).Replace@1 0 res_ReplaceAllStringFunc_1
+//@   callarg github.com/benoitkugler/gomacro/generator.ReplaceEnums@1 1 res_Replace_1
 
 // ---------------------------------------------------------------- C08 (kernel): nullability, CHECKs, constraints
 // Crash freedom of these functions belongs to C18: the contracts carry `nosafety` and state the emitted text only.
